@@ -5,6 +5,7 @@ package main
 
 import (
 	"fmt"
+	"go/constant"
 	"go/token"
 	"strings"
 
@@ -72,6 +73,30 @@ func (c *Ctx) loaderGuard(fn *ssa.Function) loaderGuardInfo {
 				walk(s, trail, depth+1)
 			}
 			return
+		}
+		// a predicate helper of the segment (`if !s.hasDocValues() { return nil }`): when it is
+		// false whenever footer.numDocs == 0, its false edge is taken for every empty segment
+		{
+			cv, neg := ifi.Cond, false
+			for {
+				u, ok := cv.(*ssa.UnOp)
+				if !ok || u.Op != token.NOT {
+					break
+				}
+				neg = !neg
+				cv = u.X
+			}
+			if pc, ok := cv.(*ssa.Call); ok && pc.Call.StaticCallee() != nil && c.inRoot(pc.Call.StaticCallee()) {
+				if predicateFalseWhenFieldZero(pc.Call.StaticCallee(), "numDocs") {
+					falseSucc, trueSucc := b.Succs[1], b.Succs[0]
+					if neg {
+						falseSucc, trueSucc = trueSucc, falseSucc
+					}
+					walk(falseSucc, append(append([]cond{}, trail...), cond{"numDocs", true}), depth+1)
+					walk(trueSucc, append(append([]cond{}, trail...), cond{"numDocs", false}), depth+1)
+					return
+				}
+			}
 		}
 		bin, ok := ifi.Cond.(*ssa.BinOp)
 		if !ok || (bin.Op != token.EQL && bin.Op != token.NEQ) {
@@ -392,7 +417,7 @@ func (c *Ctx) skipIsZeroDocs(fn *ssa.Function, emitter *ssa.Call) (bool, string)
 		if (nonZero && idom.Succs[0] != b) || (!nonZero && idom.Succs[1] != b) {
 			return false, "the emitter runs on the zero-document edge of " + bin.String()
 		}
-		x := bin.X
+		x := forwardFieldLoad(bin.X)
 		// merger: X is the value stored to footer.numDocs
 		ft := c.NamedType("footer").Obj()
 		for _, st := range c.census().fieldStores[fieldKey{ft, "numDocs"}] {
@@ -421,6 +446,24 @@ func (c *Ctx) offsetZeroWhenSkipped(fn *ssa.Function, section string) (bool, str
 		v := st.val
 		phi, ok := v.(*ssa.Phi)
 		if !ok {
+			// a footer allocated in this function and filled in as the sections are
+			// written: where the single store of this field does not execute, the
+			// field keeps the zero it was allocated with
+			if s, isStore := st.ins.(*ssa.Store); isStore {
+				if fa, isFa := s.Addr.(*ssa.FieldAddr); isFa {
+					if al, isAlloc := fa.X.(*ssa.Alloc); isAlloc && al.Parent() == fn {
+						n := 0
+						for _, st2 := range c.census().fieldStores[fieldKey{ft, field}] {
+							if st2.fn == fn {
+								n++
+							}
+						}
+						if _, isConst := v.(*ssa.Const); n == 1 && !isConst {
+							return true, ""
+						}
+					}
+				}
+			}
 			return false, "footer." + field + " is not a merge of the written offset and 0"
 		}
 		zero := false
@@ -445,6 +488,31 @@ func trailerAdjacent(c *Ctx, fn *ssa.Function, site ssa.CallInstruction) (bool, 
 	return countIsNextWriterUse(c, site.Block(), instrIndex(site)+1, 0)
 }
 
+// usesWriter: fn (or an in-package callee, two levels) calls something with a
+// writer-like argument or receiver.
+func usesWriter(c *Ctx, fn *ssa.Function, depth int) bool {
+	for _, b := range fn.Blocks {
+		for _, ins := range b.Instrs {
+			ci, ok := ins.(ssa.CallInstruction)
+			if !ok {
+				continue
+			}
+			for _, a := range ci.Common().Args {
+				if isWriterLike(a.Type()) {
+					return true
+				}
+			}
+			if ci.Common().IsInvoke() && isWriterLike(ci.Common().Value.Type()) {
+				return true
+			}
+			if sc := ci.Common().StaticCallee(); sc != nil && c.inRoot(sc) && sc.Blocks != nil && depth < 2 && sc != fn && usesWriter(c, sc, depth+1) {
+				return true
+			}
+		}
+	}
+	return false
+}
+
 // countIsNextWriterUse: following the nil-error successor chain from
 // instruction start of block b, the next use of an output writer is Count() —
 // directly, or as the first writer use of an in-package helper the writer is
@@ -459,6 +527,21 @@ func countIsNextWriterUse(c *Ctx, b *ssa.BasicBlock, start int, depth int) (bool
 			sc := ci.Common().StaticCallee()
 			if sc != nil && fnName(sc) == "(*countHashWriter).Count" {
 				return true, ""
+			}
+			// a method of the object that holds the writer (s.w) may use it without being handed it
+			if sc != nil && c.inRoot(sc) && sc.Blocks != nil && depth < 2 && usesWriter(c, sc, 0) {
+				hasWriterArg := false
+				for _, a := range ci.Common().Args {
+					if isWriterLike(a.Type()) {
+						hasWriterArg = true
+					}
+				}
+				if !hasWriterArg {
+					if ok, _ := countIsNextWriterUse(c, sc.Blocks[0], 0, depth+1); ok {
+						return true, ""
+					}
+					return false, calleeFullName(ci.Common()) + " at " + c.pos(ins.Pos()) + " uses the output writer between the chunk trailer and the capture of the stored index offset"
+				}
 			}
 			for _, a := range ci.Common().Args {
 				if isWriterLike(a.Type()) {
@@ -491,4 +574,103 @@ func countIsNextWriterUse(c *Ctx, b *ssa.BasicBlock, start int, depth int) (bool
 		start = 0
 	}
 	return false, "no capture of the writer's Count() follows the chunk trailer"
+}
+
+// predicateFalseWhenFieldZero: fn is a small bool predicate whose result is
+// false on every path whenever footer.<field> == 0.
+func predicateFalseWhenFieldZero(fn *ssa.Function, field string) bool {
+	if fn == nil || fn.Blocks == nil || len(fn.Blocks) > 12 || fn.Signature.Results().Len() != 1 || !isBoolType(fn.Signature.Results().At(0).Type()) {
+		return false
+	}
+	isAtom := func(v ssa.Value) (neg, ok bool) {
+		bin, isBin := v.(*ssa.BinOp)
+		if !isBin || (bin.Op != token.EQL && bin.Op != token.NEQ) {
+			return false, false
+		}
+		ld, isLd := bin.X.(*ssa.UnOp)
+		if !isLd || ld.Op != token.MUL || !strings.HasSuffix(accessPath(ld.X), ".footer."+field) {
+			return false, false
+		}
+		if k, isK := constUint(bin.Y); !isK || k != 0 {
+			return false, false
+		}
+		return bin.Op == token.NEQ, true
+	}
+	var eval func(v ssa.Value, path []*ssa.BasicBlock) tri
+	eval = func(v ssa.Value, path []*ssa.BasicBlock) tri {
+		if neg, ok := isAtom(v); ok {
+			if neg {
+				return triFalse
+			}
+			return triTrue
+		}
+		switch x := v.(type) {
+		case *ssa.Const:
+			if x.Value != nil && x.Value.Kind() == constant.Bool {
+				if constant.BoolVal(x.Value) {
+					return triTrue
+				}
+				return triFalse
+			}
+		case *ssa.UnOp:
+			if x.Op == token.NOT {
+				return triNot(eval(x.X, path))
+			}
+		case *ssa.Phi:
+			for i := len(path) - 1; i > 0; i-- {
+				if path[i] == x.Block() {
+					for k, pr := range x.Block().Preds {
+						if pr == path[i-1] {
+							return eval(x.Edges[k], path[:i])
+						}
+					}
+				}
+			}
+		}
+		return triUnknown
+	}
+	okAll, nret, seenAtom := true, 0, false
+	for _, b := range fn.Blocks {
+		for _, ins := range b.Instrs {
+			if v, ok := ins.(ssa.Value); ok {
+				if _, isA := isAtom(v); isA {
+					seenAtom = true
+				}
+			}
+		}
+	}
+	if !seenAtom {
+		return false
+	}
+	var walk func(b *ssa.BasicBlock, path []*ssa.BasicBlock)
+	walk = func(b *ssa.BasicBlock, path []*ssa.BasicBlock) {
+		if len(path) > 24 || !okAll {
+			okAll = okAll && len(path) <= 24
+			return
+		}
+		path = append(path, b)
+		switch last := b.Instrs[len(b.Instrs)-1].(type) {
+		case *ssa.Return:
+			nret++
+			if eval(last.Results[0], path) != triFalse {
+				okAll = false
+			}
+		case *ssa.If:
+			switch eval(last.Cond, path) {
+			case triTrue:
+				walk(b.Succs[0], path)
+			case triFalse:
+				walk(b.Succs[1], path)
+			default:
+				walk(b.Succs[0], path)
+				walk(b.Succs[1], path)
+			}
+		default:
+			for _, s := range b.Succs {
+				walk(s, path)
+			}
+		}
+	}
+	walk(fn.Blocks[0], nil)
+	return okAll && nret > 0
 }
